@@ -9,9 +9,6 @@ VERIF = os.path.dirname(os.path.dirname(os.path.abspath(__file__)))
 sys.path.insert(0, VERIF)
 
 NOT_APPLICABLE = {
-    "C10": "line/column arithmetic and error rendering: every clause is about computed numbers over all "
-           "strings and offsets; no clause is carried by code shape, and an interval/solver proof is a "
-           "different technique family (DESIGN.md section 6)",
     "C11": "equivalence of the cache/popped/lengths index arithmetic with a copying model over all "
            "histories is a data-structure invariant proof; no pairing/ownership rule is a necessary "
            "condition of it beyond the usage discipline claimed under C03.SNAP (DESIGN.md section 6)",
